@@ -57,13 +57,15 @@ def intSingle (intcs : Option (List Nat)) (a : Ast) (key : Key) (p : Nat) : NatS
     let op1 := a.opOf p1
     let op2 := a.opOf p2
     -- compared_value: from the other operand when it pushes an int; must be an `int`, not a name
-    let cv : Option Nat :=
-      if isField op1 then intLit intcs op2
-      else if isField op2 then intLit intcs op1
+    let cv : Option (Nat × Bool) :=          -- (constant, field is the second operand)
+      if isField op1 then (intLit intcs op2).map (·, false)
+      else if isField op2 then (intLit intcs op1).map (·, true)
       else none
     match cv with
     | none => (U, U)
-    | some n =>
+    | some (n, swapped) =>
+      -- NOT mirrored when the field is the second operand (known finding F02; pinned by tests/transaction_context)
+      let _ := swapped
       let t := OSet.ofList (assertedIntValues c n U)
       (t, OSet.diff U t)
   | _, _ => (U, U)
@@ -295,18 +297,18 @@ def feeSingle (intcs : Option (List Nat)) (a : Ast) (key : Key) (p : Nat) : FeeV
       match intLit intcs (a.opOf q) with
       | some n => { value := n }
       | none => unk
-    let cv : Option FeeValue :=
+    let cv : Option (FeeValue × Bool) :=     -- (compared value, field is the second operand)
       match arg1, arg2 with
       | none, none => none
-      | none, some _ => if m arg2 then some unk else none
-      | some _, none => if m arg1 then some unk else none
+      | none, some _ => if m arg2 then some (unk, true) else none
+      | some _, none => if m arg1 then some (unk, false) else none
       | some (p1, _), some (p2, _) =>
-        if m arg1 then some (cvOf p2)
-        else if m arg2 then some (cvOf p1)
+        if m arg1 then some (cvOf p2, false)
+        else if m arg2 then some (cvOf p1, true)
         else none
     match cv with
     | none => (U, U)
-    | some v => feeAssertedMax c v
+    | some (v, swapped) => feeAssertedMax (if swapped then c.mirror else c) v
   | _, _ => (U, U)
 
 /-! ### the four analyses -/
